@@ -105,3 +105,14 @@ claim("C13",
       "trusts the reference geometry in vf/props/c13.py; relativize=False judged only for "
       "all-percent layouts; DFXP div-level layouts are an open known finding",
       "DESIGN.md 3/C13")
+claim("C12",
+      "Hypothesis percent layouts at language/caption/span level: DFXP write+read round trip "
+      "compared per character against the effective input layout; WebVTT cue settings parsed "
+      "independently and compared with Fraction arithmetic; verbatim round trip of settings",
+      "Generated-input search: 5k (thorough 150k) layered sets through DFXPWriter -> DFXPReader "
+      "with fit_to_screen on/off, 6k (200k) sets through WebVTTWriter (align/position/line/size "
+      "arithmetic with paddings, values aimed at round-number carries, cue splitting by layout), "
+      "2k (50k) WebVTT files whose cue settings must be written back verbatim.",
+      "values with <= 2 decimals; WebVTT arithmetic judged for layouts with an origin; "
+      "language-level fit-to-screen in DFXP is an open known finding",
+      "DESIGN.md 3/C12")
